@@ -127,8 +127,8 @@ func (e EvaluatorAccessorMethods) ClauseGetValueAsTimestamp(clause *Clause, inde
 		if index < 0 || index >= len(clause.preprocessed.values) {
 			return time.Time{}, false
 		}
-		t := clause.preprocessed.values[index].parsedTime
-		return t, !t.IsZero()
+		p := clause.preprocessed.values[index]
+		return p.parsedTime, p.valid
 	}
 	if index >= 0 && index < len(clause.Values) {
 		return TypeConversions.ValueToTimestamp(clause.Values[index])
